@@ -286,6 +286,81 @@ pub fn run(run: &RunInfo) -> Summary {
                 ));
             }
         };
+        // the connection breaks on the writing side: the w-th write (0 = the command, j = the
+        // acknowledgement of the j-th reply) fails, and every later one would
+        if !fin_bytes.is_empty() || nfl.is_empty() {
+            let fin_letter = ls.iter().find(|l| l.is_final);
+            for w in &prefixes {
+                let mut script: Vec<&Letter> = w.iter().map(|i| nfl[*i]).collect();
+                if let Some(f) = fin_letter {
+                    script.push(f);
+                }
+                for wf in 0..=script.len() {
+                    let mut incoming: Vec<u8> = ACK.to_vec();
+                    for l in &script {
+                        incoming.extend(&l.bytes);
+                    }
+                    let sh: Sh = Rc::new(RefCell::new(Ctx::new(vec![], vec![], 0)));
+                    let s = Scripted::new(sh, incoming.clone(), Chunking::Greedy);
+                    s.st.borrow_mut().eof_at = Some(incoming.len());
+                    s.st.borrow_mut().fail_write_call = Some(wf);
+                    let log = (def.run)(&cmd_v, &s, None);
+                    let events = s.st.borrow().log.clone();
+                    acc.count("executions", 1);
+                    acc.count("transitions", (script.len() + 2) as u64);
+                    acc.count("kind:write-failure", 1);
+                    let yielded = wf.saturating_sub(1);
+                    let mut problems = vec![];
+                    if let Some(p) = &log.panic {
+                        problems.push(format!("the sequence panicked: {p}"));
+                    } else {
+                        for (i, l) in script.iter().take(yielded).enumerate() {
+                            match log.items.get(i) {
+                                Some(Ok(d)) if *d == l.debug => {}
+                                other => problems.push(format!("item {i} must be {} got {:?}", l.debug.chars().take(60).collect::<String>(), other.map(|r| r.as_ref().map(|s| s.chars().take(60).collect::<String>()).map_err(|e| e.chars().take(80).collect::<String>())))),
+                            }
+                        }
+                        let errs = log.items.iter().filter(|i| i.is_err()).count();
+                        if log.items.len() != yielded + 1 || errs != 1 || log.items.last().map(|i| i.is_ok()).unwrap_or(true) {
+                            problems.push(format!("expected {yielded} packets, then exactly one error, then the end; got {} items with {errs} errors: {:?}", log.items.len(), log.items.iter().map(|i| i.as_ref().map(|s| s.chars().take(40).collect::<String>()).map_err(|e| e.chars().take(70).collect::<String>())).collect::<Vec<_>>()));
+                        }
+                        if log.blocked || !log.ended || log.polls_after_end_not_none > 0 {
+                            problems.push(format!("after the error the stream must end and stay ended (blocked={}, ended={}, later polls not None: {})", log.blocked, log.ended, log.polls_after_end_not_none));
+                        }
+                        let writes: Vec<&Vec<u8>> = events.iter().filter_map(|e| if let Ev::Write(w) = e { Some(w) } else { None }).collect();
+                        let refused = events.iter().filter(|e| matches!(e, Ev::Mark(m) if m.contains("refused"))).count();
+                        if refused != 1 {
+                            problems.push(format!("{refused} writes were attempted on the broken connection (expected the failing one only)"));
+                        }
+                        let mut all: Vec<u8> = vec![];
+                        for wv in &writes {
+                            all.extend(wv.iter());
+                        }
+                        let mut want: Vec<u8> = vec![];
+                        if wf > 0 {
+                            want.extend(&cmd_bytes);
+                            for _ in 0..yielded {
+                                want.extend(ACK);
+                            }
+                        }
+                        if all != want {
+                            problems.push(format!("bytes written {} differ from the command and {yielded} acknowledgements {}", hex_short(&all), hex_short(&want)));
+                        }
+                    }
+                    let pname: String = script.iter().map(|l| l.label.as_str()).collect::<Vec<_>>().join(",");
+                    acc.set("outcomes", h64(&(def.name, &pname, "write-failure", wf)));
+                    if problems.is_empty() {
+                        acc.count("ok:write-failure", 1);
+                    } else {
+                        acc.violation(viol(
+                            format!("c06/{}/script={pname}/write-failure-at={wf}", def.name),
+                            format!("sequence {} command {}\nreply script: [{pname}]\nthe connection breaks on the writing side: write number {wf} (0 = the command, j = the acknowledgement of reply j) fails\n{}\nevent log:\n{}", def.name, hex_short(&cmd_bytes), problems.join("\n"), render_events(&events)),
+                            (script.len() * 10) as u64,
+                        ));
+                    }
+                }
+            }
+        }
         for f in &ack_faults {
             run_one(&[], f, true, false, acc);
             if f.kind != "eof" {
@@ -311,7 +386,7 @@ pub fn run(run: &RunInfo) -> Summary {
         acc.witness("faults in the firmware upload, also after the last byte of the file was sent, produced exactly one error");
     }
     drop(silencer);
-    for k in ["nack", "foreign", "malformed", "eof"] {
+    for k in ["nack", "foreign", "malformed", "eof", "write-failure"] {
         if acc.get(&format!("ok:{k}")) > 0 {
             acc.witness(&format!("fault kind '{k}' produced exactly one error and silence"));
         }
@@ -326,13 +401,14 @@ pub fn run(run: &RunInfo) -> Summary {
         transitions: acc.get("transitions"),
         traces_validated: execs,
         distinct_nontrivial: acc.set_len("outcomes"),
-        rule: format!("firmware upload: every word of <= {updepth} data requests over the three blocks of a 17-byte file (incl. words after which every byte has been sent) x 10 complete faulty packets (followed by the end of the stream and by a well-formed rest) and every truncation of a completion and of a data request, in the reply slot and in the place of the acknowledgement of the file list; 17 sequences x every valid reply-script prefix of <= {depth} non-final letters x fault in the next slot: NACK 84xx (00, 83, 9C, FF), a bare acknowledgement, every packet of the other reply alphabets, one-byte neighbours of every listed control field (with and without body), malformed bodies the reference decoder rejects as well (empty body before a mandatory field, duplicated tag, last prefixed field cut short, missing mandatory tag), every truncation of every in-set packet followed by the end of the stream, end of stream between packets; every complete faulty packet both followed by the end of the stream and by a well-formed rest of the exchange; in the acknowledgement slot: NACKs, every reply packet, neighbours of 80 00, truncated acknowledgements. distinct_nontrivial = distinct (sequence, prefix, fault) cases"),
+        rule: format!("firmware upload: every word of <= {updepth} data requests over the three blocks of a 17-byte file (incl. words after which every byte has been sent) x 10 complete faulty packets (followed by the end of the stream and by a well-formed rest) and every truncation of a completion and of a data request, in the reply slot and in the place of the acknowledgement of the file list; 17 sequences x every valid reply-script prefix of <= {depth} non-final letters x fault in the next slot: NACK 84xx (00, 83, 9C, FF), a bare acknowledgement, every packet of the other reply alphabets, one-byte neighbours of every listed control field (with and without body), malformed bodies the reference decoder rejects as well (empty body before a mandatory field, duplicated tag, last prefixed field cut short, missing mandatory tag), every truncation of every in-set packet followed by the end of the stream, end of stream between packets; every complete faulty packet both followed by the end of the stream and by a well-formed rest of the exchange; a broken pipe at every write of every valid script (the command, each acknowledgement); in the acknowledgement slot: NACKs, every reply packet, neighbours of 80 00, truncated acknowledgements. distinct_nontrivial = distinct (sequence, prefix, fault) cases"),
         exhaustive: true,
         required_witnesses: vec![
             "fault kind 'nack' produced exactly one error and silence".into(),
             "fault kind 'foreign' produced exactly one error and silence".into(),
             "fault kind 'malformed' produced exactly one error and silence".into(),
             "fault kind 'eof' produced exactly one error and silence".into(),
+            "fault kind 'write-failure' produced exactly one error and silence".into(),
             "faults in the firmware upload, also after the last byte of the file was sent, produced exactly one error".into(),
         ],
         assumptions: vec![
